@@ -96,6 +96,7 @@ type VM struct {
 	cases    []reflect.SelectCase // select cases.
 	panic    *PanicError          // panic.
 	main     bool                 // reports whether this VM is executing the main goroutine.
+	verif    verifState           // state of the monitoring hooks (empty unless built with the verif tag).
 }
 
 // NewVM returns a new virtual machine.
@@ -263,6 +264,7 @@ func (vm *VM) callNative(fn *NativeFunction, numVariadic int8, shift StackShift,
 	if fn.value.IsNil() {
 		panic(errNilPointer)
 	}
+	verifNativeCall(fn)
 
 	// Make a copy of the frame pointer.
 	fp := vm.fp
@@ -327,6 +329,7 @@ func (vm *VM) callNative(fn *NativeFunction, numVariadic int8, shift StackShift,
 
 		// Get a slice of reflect.Value for the arguments.
 		args = fn.argsPool.Get().([]reflect.Value)
+		verifYield(vm, VerifSiteArgsGet)
 
 		// Prepare the arguments.
 		lastNonVariadic := nunIn
@@ -420,6 +423,7 @@ func (vm *VM) callNative(fn *NativeFunction, numVariadic int8, shift StackShift,
 
 		// Call the function and get the results.
 		var out []reflect.Value
+		verifYield(vm, VerifSiteNativeCall)
 		if variadic {
 			out = fn.value.CallSlice(args)
 		} else {
@@ -431,6 +435,7 @@ func (vm *VM) callNative(fn *NativeFunction, numVariadic int8, shift StackShift,
 		}
 
 		if args != nil {
+			verifYield(vm, VerifSiteArgsPut)
 			fn.argsPool.Put(args)
 		}
 
@@ -654,7 +659,9 @@ func (vm *VM) startGoroutine() bool {
 	copy(nvm.regs.float, vm.regs.float[vm.fp[1]+Addr(off.A):vm.fp[1]+127])
 	copy(nvm.regs.string, vm.regs.string[vm.fp[2]+Addr(off.B):vm.fp[2]+127])
 	copy(nvm.regs.general, vm.regs.general[vm.fp[3]+Addr(off.C):vm.fp[3]+127])
+	verifYield(vm, VerifSiteGoBefore)
 	go nvm.runFunc(fn, vars)
+	verifYield(vm, VerifSiteGoAfter)
 	vm.pc++
 	return false
 }
